@@ -23,6 +23,8 @@
 //       14 s     read once through the snapshot in slot s (returns the value)
 //       15 s     drop the snapshot in slot s
 //       16 a b   copy the snapshot of slot a into the empty slot b
+//       18 s     re-arm the handle variable of slot s with `h = b.lock()` from a second object b: only if the handle type is
+//                move-assignable (it is not in the unmodified library: refused)
 //       17 s     release the write handle in slot s from a scope guard's destructor while an unrelated exception unwinds
 //                the stack (std::uncaught_exceptions() == 1); the exception is caught inside the operation, which returns
 //                normally.  The commit must happen exactly as for op 7.
@@ -127,13 +129,15 @@ struct CowImpl {
     using SH = typename Cow::shared_handle;
     static constexpr bool TIMED = std::is_same_v<M, vstd::timed_mutex>;
     Cow cow;
+    std::optional<Cow> cowb;  // a second, unrelated object: built by the first op 18 that is not refused
+    long init0;
     // the deleter holds a reference: write handles cannot be move-assigned, so they are emplaced
     std::vector<std::vector<std::optional<WH>>> ws;  // destroyed before cow
     std::vector<std::vector<SH>> ss;
     std::list<WH> grave;  // cancelled (null) handles, destroyed with the component
     std::vector<long> nops;  // operations issued so far, per thread
     int nw, ns;
-    CowImpl(size_t nthreads, int nw_, int ns_, long init): cow(init), nw(nw_), ns(ns_)
+    CowImpl(size_t nthreads, int nw_, int ns_, long init): cow(init), init0(init), nw(nw_), ns(ns_)
     {
         ws.resize(nthreads);
         for (auto& s : ws) s.resize((size_t)nw);
@@ -154,6 +158,21 @@ struct CowImpl {
         auto& W = ws[(size_t)tid];
         const bool via_get = (nops[(size_t)tid]++ % 2) == 1;
         auto& S = ss[(size_t)tid];
+        if (k == 18) {
+            // `h = other.lock();` - re-arm the handle variable of slot a from a SECOND cow_guarded object.  The handle
+            // type of the unmodified library is not move-assignable (its deleter holds a reference), so the operation
+            // does not exist there and is refused (the model: Refused 18).  If a library change makes it compile, the
+            // old handle must be released into the first object and everything done through the variable afterwards
+            // must concern the second object only (monitors: no_lost_update / base_latest on the first object).
+            if constexpr (std::is_move_assignable_v<WH>) {
+                if (a < 0 || a >= nw || !W[(size_t)a] || !*W[(size_t)a]) return -1;
+                if (!cowb) cowb.emplace(init0 + 1000);
+                *W[(size_t)a] = cowb->lock();
+                return 0;
+            } else {
+                return -1;
+            }
+        }
         if (k == 17) {
             if (a < 0 || a >= nw || !W[(size_t)a]) return -1;
             auto& slot = W[(size_t)a];
